@@ -542,6 +542,128 @@ type esReq struct {
 	state     string
 	fault     int      // 0 none, 1 GetClientByClientID, 2 TerminateSession
 	published []string // key ids the storage publishes while this request is served (nil = k1)
+	method    string   // "" = GET (everything in the query) | "POST"
+	primQuery bool     // POST: the four parameters above travel in the query instead of the body
+	extras    []extra  // whatever else the request carries
+}
+
+// extra is one more parameter: a name the endpoint does not know (logout_hint, ui_locales, ...)
+// or a known name once more with another value. hint != nil: the value is that token.
+type extra struct {
+	name, val string
+	hint      *hintSpec
+	first     bool // before the ordinary parameters of its section (else after them)
+	query     bool // POST: in the query (else in the body)
+}
+
+// pair is one parameter as sent; tok != "" is the model term of an id_token_hint value.
+type pair struct {
+	name, val, tok string
+	h              *hintSpec
+}
+
+// wire lays the request out: the pairs of the body and of the query, each in sending order.
+func (q esReq) wire(cur string, tc tokCache) (body, query []pair) {
+	var prim []pair
+	if q.hint.kind != "none" {
+		h := q.hint
+		prim = append(prim, pair{"id_token_hint", tc.get(h, cur), h.term(cur), &h})
+	}
+	if q.clientID != "" {
+		prim = append(prim, pair{name: "client_id", val: q.clientID})
+	}
+	if q.uri != "" {
+		prim = append(prim, pair{name: "post_logout_redirect_uri", val: q.uri})
+	}
+	if q.state != "" {
+		prim = append(prim, pair{name: "state", val: q.state})
+	}
+	post := q.method == "POST"
+	var bFirst, bLast, qFirst, qLast []pair
+	for _, e := range q.extras {
+		p := pair{name: e.name, val: e.val}
+		if e.hint != nil {
+			p.val, p.tok, p.h = tc.get(*e.hint, cur), e.hint.term(cur), e.hint
+		} else if e.name == "id_token_hint" { // a literal value that is no token
+			p.tok = "TBad"
+			if e.val == "" {
+				p.tok = "TNone"
+			}
+		}
+		switch {
+		case post && !e.query && e.first:
+			bFirst = append(bFirst, p)
+		case post && !e.query:
+			bLast = append(bLast, p)
+		case e.first:
+			qFirst = append(qFirst, p)
+		default:
+			qLast = append(qLast, p)
+		}
+	}
+	if post && !q.primQuery {
+		body = append(append(bFirst, prim...), bLast...)
+		query = append(qFirst, qLast...)
+	} else {
+		body = append(bFirst, bLast...)
+		query = append(append(qFirst, prim...), qLast...)
+	}
+	return body, query
+}
+
+func encodePairs(ps []pair) string {
+	var sb strings.Builder
+	for i, p := range ps {
+		if i > 0 {
+			sb.WriteByte('&')
+		}
+		sb.WriteString(url.QueryEscape(p.name) + "=" + url.QueryEscape(p.val))
+	}
+	return sb.String()
+}
+
+// effective: what http.Request.Form + the schema decoder make of the request - the body's values
+// before the query's, the LAST value of a name counts (only used to aim the storage fault and to
+// fill the oracle tables; the model derives the same from r_toks / r_form itself).
+func effective(body, query []pair) (hint hintSpec, clientID string, uris []string) {
+	hint = hintSpec{kind: "none"}
+	for _, p := range append(append([]pair{}, body...), query...) {
+		switch p.name {
+		case "id_token_hint":
+			switch {
+			case p.h != nil:
+				hint = *p.h
+			case p.val == "":
+				hint = hintSpec{kind: "none"}
+			default:
+				hint = hintSpec{kind: "garbage"}
+			}
+		case "client_id":
+			clientID = p.val
+		case "post_logout_redirect_uri":
+			uris = append(uris, p.val)
+		}
+	}
+	return hint, clientID, uris
+}
+
+// send delivers the request to one router of the fixture.
+func send(f *opfix.Fixture, q esReq, body, query []pair) *opfix.Resp {
+	target := "https://" + q.host + "/end_session"
+	if len(query) > 0 {
+		target += "?" + encodePairs(query)
+	}
+	var req *http.Request
+	if q.method == "POST" {
+		req = httptest.NewRequest(http.MethodPost, target, strings.NewReader(encodePairs(body)))
+		req.Header.Set("Content-Type", "application/x-www-form-urlencoded")
+	} else {
+		req = httptest.NewRequest(http.MethodGet, target, nil)
+	}
+	if q.fwd != "" {
+		req.Header.Set("Forwarded", "host="+q.fwd)
+	}
+	return opfix.Do(f.Handlers[q.router], req)
 }
 
 func routerName(r opfix.Router) string {
@@ -607,9 +729,8 @@ func run(w *emit.Writer, c esCase) {
 		}
 	}
 	f, err := opfix.NewWithIssuerStorage(store, opfix.Options{DefaultLogout: c.defaultU, ProviderOpts: popts}, issuer, wrap)
-	if err != nil {
-		fmt.Fprintln(os.Stderr, "fixture:", err)
-		os.Exit(2)
+	if err != nil { // op.NewProvider refused the configuration: an observed outcome (ONoProvider)
+		f = nil
 	}
 	defaultU := c.defaultU
 	if defaultU == "" {
@@ -622,7 +743,6 @@ func run(w *emit.Writer, c esCase) {
 	var uris []string
 	for _, rq := range c.reqs {
 		cur := c.issuer(rq)
-		q := url.Values{}
 		// key rotation: what the storage publishes while THIS request is served
 		pub := rq.published
 		if len(pub) == 0 {
@@ -634,18 +754,8 @@ func run(w *emit.Writer, c esCase) {
 			sk := provKey(k)
 			store.ExtraPub = append(store.ExtraPub, &refstore.PublicKey{KID: sk.KID, Alg: sk.Alg, UseStr: "sig", Pub: pubOf(k)})
 		}
-		if tok := tc.get(rq.hint, cur); tok != "" {
-			q.Set("id_token_hint", tok)
-		}
-		if rq.clientID != "" {
-			q.Set("client_id", rq.clientID)
-		}
-		if rq.uri != "" {
-			q.Set("post_logout_redirect_uri", rq.uri)
-		}
-		if rq.state != "" {
-			q.Set("state", rq.state)
-		}
+		body, query := rq.wire(cur, tc)
+		effHint, effClient, effURIs := effective(body, query)
 		store.ResetJournal()
 		store.FaultMethod = ""
 		if rq.fault == 1 {
@@ -653,15 +763,18 @@ func run(w *emit.Writer, c esCase) {
 		}
 		if rq.fault == 2 && tsfr == nil { // the journal name carries the arguments: aim at the call a correct provider makes
 			eu, ec := "", ""
-			accepted := verifiable(rq.hint.kind) && (rq.hint.iss == "" || rq.hint.iss == cur) && c.hintTrusted(rq.hint, pub)
+			accepted := verifiable(effHint.kind) && (effHint.iss == "" || effHint.iss == cur) && c.hintTrusted(effHint, pub)
 			if accepted {
-				eu, ec = rq.hint.sub, rq.hint.azp
-			} else if rq.hint.kind == "none" {
-				ec = rq.clientID
+				eu, ec = effHint.sub, effHint.azp
+			} else if effHint.kind == "none" {
+				ec = effClient
 			}
 			store.FaultMethod = "TerminateSession:" + eu + ":" + ec
 		}
-		resp := f.GetAt(rq.router, rq.host, rq.fwd, "/end_session", q)
+		resp := &opfix.Resp{}
+		if f != nil {
+			resp = send(f, rq, body, query)
+		}
 		store.FaultMethod = ""
 		term := emit.None
 		var termPair string
@@ -691,12 +804,24 @@ func run(w *emit.Writer, c esCase) {
 			obs = "EOther"
 		}
 		outs = append(outs, obs)
-		reqTerms = append(reqTerms, emit.Ctor("Build_ereq", routerName(rq.router), emit.Str(cur), emit.StrList(pub), rq.hint.term(cur), emit.Str(rq.clientID),
-			emit.Str(rq.uri), emit.Str(rq.state), []string{"EF_None", "EF_GetClient", "EF_Terminate"}[rq.fault]))
-		parse = append(parse, rq.uri)
-		uris = append(uris, rq.uri)
+		var toks, form []string
+		for _, p := range append(append([]pair{}, body...), query...) { // http.Request.Form: body first
+			if p.name == "id_token_hint" {
+				toks = append(toks, p.tok)
+			} else {
+				form = append(form, emit.Pair(emit.Str(p.name), emit.Str(p.val)))
+			}
+		}
+		reqTerms = append(reqTerms, emit.Ctor("Build_ereq", routerName(rq.router), emit.Str(cur), emit.StrList(pub), emit.List(toks), emit.List(form),
+			[]string{"EF_None", "EF_GetClient", "EF_Terminate"}[rq.fault]))
+		if len(effURIs) == 0 {
+			effURIs = []string{""}
+		}
+		parse = append(parse, effURIs...)
+		uris = append(uris, effURIs...)
 		human = append(human, map[string]any{"router": rq.router.String(), "host": rq.host, "forwarded": rq.fwd, "issuer": cur,
 			"hint_kind": rq.hint.kind, "hint_text": rq.hint.text, "hint_sub": rq.hint.sub, "hint_azp": rq.hint.azp, "hint_iss": rq.hint.iss, "hint_key": rq.hint.keyName(), "published": pub, "client_id": rq.clientID,
+			"method": map[bool]string{true: "POST", false: "GET"}[rq.method == "POST"], "raw_query": encodePairs(query), "raw_body": encodePairs(body),
 			"post_logout_redirect_uri": rq.uri, "state": rq.state, "fault": rq.fault, "status": resp.Status, "location": resp.Header.Get("Location"),
 			"body": resp.Body, "journal": store.JournalCopy()})
 	}
@@ -716,8 +841,12 @@ func run(w *emit.Writer, c esCase) {
 		tsTerm = emit.Ctor("TS_Fixed", emit.Str(rec.Header().Get("Location")))
 	}
 	in := emit.Ctor("IEnd", emit.Str(defaultU), tsTerm, emit.List(c.optTerms()), emit.List(cl), tables(c.clients, uris, parse), emit.List(reqTerms))
-	w.Add(emit.Case{Input: in, Observed: emit.Ctor("OEnd", emit.List(outs)), Tags: c.tags,
-		Human: map[string]any{"options": c.optsHuman(), "issuer_mode": c.issuerMode, "tsfr": c.tsMode, "tsfr_fixed": c.tsFixed, "default": defaultU, "requests": human, "clients": clientsHuman(c.clients)}})
+	observed := emit.Ctor("OEnd", emit.List(outs))
+	if f == nil {
+		observed = "ONoProvider"
+	}
+	w.Add(emit.Case{Input: in, Observed: observed, Tags: c.tags,
+		Human: map[string]any{"new_provider_error": fmt.Sprint(err), "options": c.optsHuman(), "issuer_mode": c.issuerMode, "tsfr": c.tsMode, "tsfr_fixed": c.tsFixed, "default": defaultU, "requests": human, "clients": clientsHuman(c.clients)}})
 }
 
 func (c esCase) optsHuman() []string {
@@ -904,12 +1033,41 @@ func genReq(r drv.Rand, c *esCase, tags map[string]bool) esReq {
 	}
 	var stKind string
 	q.state, stKind = genState(r)
+	if n := len(c.reqs); n > 0 && r.Chance(1, 4) { // the target of an earlier logout again (often the default URI), with a state of its own
+		q.uri, uriKind = c.reqs[r.IntN(n)].uri, "sameasearlier"
+		for q.state == "" {
+			q.state, stKind = genState(r)
+		}
+	}
 	if r.Chance(1, 12) {
 		q.fault = 1 + r.IntN(2)
 		if q.fault == 2 && c.tsMode != "" { // TerminateSession is not called then
 			q.fault = 1
 		}
 	}
+	// how the request travels, and what else it carries
+	place := "get"
+	if r.Chance(1, 3) {
+		q.method, place = "POST", "post-body"
+		if r.Chance(1, 4) {
+			q.primQuery, place = true, "post-query"
+		}
+	}
+	extraKind := "none"
+	if r.Chance(2, 5) {
+		ne := drv.Pick(r, []int{1, 1, 2, 3})
+		for i := 0; i < ne; i++ {
+			var k string
+			e := genExtra(r, c, &q, &k)
+			q.extras = append(q.extras, e)
+			if extraKind == "none" || extraKind == k {
+				extraKind = k
+			} else {
+				extraKind = "several"
+			}
+		}
+	}
+	tags["place="+place], tags["extra="+extraKind] = true, true
 	for _, t := range []string{"hinttoken=" + reuse, "hintkey=" + keyKind, "router=" + q.router.String(), "hint=" + hk, "hintiss=" + issKind, "client_id=" + cidKind, "uri=" + uriKind,
 		"state=" + stKind, fmt.Sprintf("fault=%d", q.fault), fmt.Sprintf("globs=%v", owner.UseGlobs), fmt.Sprintf("forwarded=%v", q.fwd != "")} {
 		tags[t] = true
@@ -917,9 +1075,63 @@ func genReq(r drv.Rand, c *esCase, tags map[string]bool) esReq {
 	return q
 }
 
+var otherUsers = []string{"mallory", "bob", "alice", "user 1", "u:1", "", "alice@example.com", "null"}
+
+// names the endpoint does not know. No case variants of the known names: the schema decoder
+// matches names case-insensitively and reads http.Request.Form in map order, so the answer to
+// client_id=a&CLIENT_ID=b is not determined.
+var unknownNames = []string{"foo", "user_id", "sub", "userID", "login_hint", "id_token", "redirect_uri", "client", "session_state", "sid", "post_logout_redirect_uris", "state2", "x-state", "", "id_token_hint2"}
+
+// genExtra draws one further parameter for q: logout_hint / ui_locales / an unknown name, or a
+// known name once more with a different value, before or after the ordinary ones, in body or query.
+func genExtra(r drv.Rand, c *esCase, q *esReq, kind *string) extra {
+	e := extra{first: r.Bool(), query: r.Chance(1, 3)}
+	switch r.IntN(10) {
+	case 0, 1, 2:
+		*kind, e.name, e.val = "logout_hint", "logout_hint", drv.Pick(r, otherUsers)
+	case 3:
+		*kind, e.name, e.val = "ui_locales", "ui_locales", drv.Pick(r, []string{"de", "fr-CA fr en", "", "mallory"})
+	case 4:
+		*kind, e.name, e.val = "unknown", drv.Pick(r, unknownNames), drv.Pick(r, append([]string{"ks0", "ks1", "https://evil.example/bye", "xyz"}, otherUsers...))
+	case 5:
+		*kind, e.name, e.val = "dup_client_id", "client_id", drv.Pick(r, []string{"ks0", "ks1", "ghost", "", "KS0", "mallory"})
+	case 6:
+		*kind, e.name = "dup_uri", "post_logout_redirect_uri"
+		e.val = drv.Pick(r, []string{"https://evil.example/bye", "", "https://app.example.com/bye", "https://other.example.org/logout/done"})
+		if cl := drv.Pick(r, c.clients); len(cl.PostLogout) > 0 && r.Bool() {
+			e.val = drv.Pick(r, cl.PostLogout)
+		}
+	case 7:
+		*kind, e.name, e.val = "dup_state", "state", drv.Pick(r, []string{"other", "", "xyz", "s 2", "%zz"})
+	default:
+		*kind, e.name = "dup_hint", "id_token_hint"
+		switch r.IntN(5) {
+		case 0:
+			e.val = drv.Pick(r, []string{"", "null", "aaa.bbb.ccc"})
+		case 1:
+			if n := len(c.reqs); n > 0 { // the token of an earlier request
+				if prev := c.reqs[r.IntN(n)]; prev.hint.kind != "none" && prev.hint.kind != "keyword" {
+					h := prev.hint
+					if h.iss == "" {
+						h.iss = c.issuer(prev)
+					}
+					e.hint = &h
+					break
+				}
+			}
+			fallthrough
+		default:
+			h := hintSpec{kind: drv.Pick(r, []string{"valid", "valid", "valid", "expired", "badsig", "tampered", "foreign"}), sub: drv.Pick(r, otherUsers[:5]),
+				azp: drv.Pick(r, []string{"ks0", "ks0", "ks1", "", "ghost"}), key: drv.Pick(r, []string{"k1", "k1", "k1", "k2", "fk"})}
+			e.hint = &h
+		}
+	}
+	return e
+}
+
 func gen(r drv.Rand, w *emit.Writer) {
 	c := esCase{issuerMode: drv.Pick(r, []int{0, 1, 1, 2, 2})}
-	c.defaultU = drv.Pick(r, []string{"", "", "https://op.example.com/bye?x=1", "https://op.example.com/done#top", "https://op.example.com/%zz"})
+	c.defaultU = drv.Pick(r, []string{"", "", "", "https://op.example.com/bye?x=1", "https://op.example.com/done#top", "https://op.example.com/%zz", "https://op.example.com/bye?state=own&z=1", "/out?a=1#f"})
 	c.clients = []*refstore.Client{genClient(r, "ks0"), genClient(r, "ks1")}
 	genOpts(r, &c)
 	// the storage may implement the optional CanTerminateSessionFromRequest
@@ -1026,6 +1238,67 @@ func directed(w *emit.Writer) {
 				esReq{router: router, host: "op.example.com", hint: hintSpec{kind: "none"}, clientID: v, uri: "https://app.example.com/bye", state: "s"})
 		}
 		run(w, esCase{clients: cl, reqs: near, tags: []string{"directed=nearid", "router=" + router.String()}})
+		// EXTRA parameters next to every hint kind, by GET, in a POST body, and split over body and
+		// query: logout_hint / unknown names naming another user, known names twice in both orders
+		for _, pl := range []string{"get", "post-body", "post-query", "post-split"} {
+			for _, hk := range []string{"none", "valid", "expired", "badsig"} {
+				base := esReq{router: router, host: "op.example.com", hint: hintSpec{kind: hk, sub: "alice", azp: "ks0"}, uri: "https://app.example.com/bye"}
+				if hk == "none" {
+					base.hint, base.clientID = hintSpec{kind: "none"}, "ks0"
+				}
+				split := false
+				switch pl {
+				case "post-body":
+					base.method = "POST"
+				case "post-query":
+					base.method, base.primQuery = "POST", true
+				case "post-split":
+					base.method, split = "POST", true
+				}
+				u2 := hintSpec{kind: "valid", sub: "mallory", azp: "ks1"}
+				var seq []esReq
+				for _, ex := range [][]extra{
+					{{name: "logout_hint", val: "mallory"}}, {{name: "logout_hint", val: "mallory", first: true}}, {{name: "logout_hint", val: "alice"}}, {{name: "logout_hint", val: ""}},
+					{{name: "ui_locales", val: "de"}, {name: "user_id", val: "mallory"}, {name: "sub", val: "mallory", first: true}},
+					{{name: "client_id", val: "ks1"}}, {{name: "client_id", val: "ks1", first: true}}, {{name: "client_id", val: "", first: true}},
+					{{name: "id_token_hint", hint: &u2}}, {{name: "id_token_hint", hint: &u2, first: true}}, {{name: "id_token_hint", val: ""}}, {{name: "id_token_hint", val: "", first: true}},
+					{{name: "state", val: "first", first: true}, {name: "state", val: "last"}}, {{name: "post_logout_redirect_uri", val: "https://evil.example/bye", first: true}},
+					{{name: "post_logout_redirect_uri", val: "https://evil.example/bye"}}} {
+					q := base
+					for _, e := range ex {
+						e.query = split
+						q.extras = append(q.extras, e)
+					}
+					seq = append(seq, q)
+				}
+				run(w, esCase{clients: cl, reqs: seq, tags: []string{"directed=extras", "place=" + pl, "hint=" + hk, "router=" + router.String()}})
+			}
+		}
+		// 2-3 logouts on ONE provider that end on the same target - the default URI in its variants,
+		// the same registered URI - each with its own state; also across the two routers
+		reg := &refstore.Client{ID: "ks0", PostLogout: []string{"https://app.example.com/bye", "https://op.example.com/bye?x=1", "/logged-out"}}
+		for _, def := range []string{"", "https://op.example.com/bye?x=1", "https://op.example.com/done#top", "https://op.example.com/bye?state=own&z=1", "/out?a=1#f", "https://op.example.com/%zz"} {
+			otherRouter := opfix.Provider
+			if router == opfix.Provider {
+				otherRouter = opfix.Legacy
+			}
+			for i, tpl := range []esReq{
+				{router: router, host: "op.example.com", hint: hintSpec{kind: "none"}},
+				{router: router, host: "op.example.com", hint: h1},
+				{router: router, host: "op.example.com", hint: hintSpec{kind: "none"}, clientID: "ks0"},
+				{router: router, host: "op.example.com", hint: h1, uri: "https://app.example.com/bye"},
+				{router: router, host: "op.example.com", hint: h1, uri: "https://op.example.com/bye?x=1"},
+				{router: router, host: "op.example.com", hint: hintSpec{kind: "none"}, clientID: "ks0", uri: "/logged-out"}} {
+				a, b, c3, d := tpl, tpl, tpl, tpl
+				a.state, b.state, c3.state, d.state = "s1", "s2", "", "s 3&x"
+				if i%2 == 1 {
+					b.router = otherRouter
+					b.method = "POST"
+				}
+				run(w, esCase{defaultU: def, clients: []*refstore.Client{reg, other}, reqs: []esReq{a, b, c3, d},
+					tags: []string{"directed=sametarget", "router=" + router.String()}})
+			}
+		}
 		// one router instance, a full request and then requests that OMIT one parameter each (a
 		// recycled request struct would carry the earlier value over)
 		full := esReq{router: router, host: "op.example.com", hint: h1, clientID: "ks0", uri: "https://app.example.com/bye", state: "first"}
@@ -1073,7 +1346,7 @@ func main() {
 		gen(r, w)
 	}
 	err := w.Close(emit.Meta{Property: "C18", Tier: cfg.Tier, Seed: cfg.Seed,
-		Rule: "1-4 GET /end_session requests in sequence on ONE provider instance built with 0-4 verification OPTIONS in any order (WithAccessTokenKeySet / WithIDTokenHintKeySet over 1-2 custom key-set objects that trust the storage's keys and / or foreign or pinned keys; With*VerifierOpts(signing algorithms)), whose storage publishes a per-request subset of three signing keys (k1, k2 EC, r1 RSA: rotation / withdrawal between requests; hints are signed with those or with the foreign keys fk, pk; 1/4 of the later requests present the very token of an earlier request again or its payload swapped under its signature) and may implement the optional CanTerminateSessionFromRequest (echo / own URI incl. empty / error) (static issuer, op.IssuerFromHost or op.IssuerFromForwardedOrHost; Host / Forwarded header vary per request), each on a random router: hint kind (absent, valid, expired, iat in the future, wrong key, foreign issuer, not a JWT, payload swapped, expired+wrong key; really signed ES256; 1/4 signed for another issuer of the same provider) x azp (client, other client, none, unknown) x client_id (absent, same, contradicting, unknown) x post_logout_redirect_uri (absent, registered, registered for the other client, glob instance, mutated: suffix/prefix/userinfo/host case/foreign/unparseable/scheme) x state (absent, plain, special characters, random bytes) x two random registrations (0-3 URIs, optional path.Match globs incl. malformed) x default logout URI x storage fault; plus a directed grid and directed two-host sequences. non-trivial = some request not rejected because of its hint; distinct = distinct Coq input terms",
+		Rule: "(requests travel by GET, in a POST body or split over body and query and 2 in 5 carry EXTRA parameters: logout_hint, ui_locales, unknown names, known names repeated with another value before / after; 1 in 4 later requests asks for the target of an earlier one with a state of its own; a configuration NewProvider refuses is the outcome ONoProvider) 1-4 /end_session requests in sequence on ONE provider instance built with 0-4 verification OPTIONS in any order (WithAccessTokenKeySet / WithIDTokenHintKeySet over 1-2 custom key-set objects that trust the storage's keys and / or foreign or pinned keys; With*VerifierOpts(signing algorithms)), whose storage publishes a per-request subset of three signing keys (k1, k2 EC, r1 RSA: rotation / withdrawal between requests; hints are signed with those or with the foreign keys fk, pk; 1/4 of the later requests present the very token of an earlier request again or its payload swapped under its signature) and may implement the optional CanTerminateSessionFromRequest (echo / own URI incl. empty / error) (static issuer, op.IssuerFromHost or op.IssuerFromForwardedOrHost; Host / Forwarded header vary per request), each on a random router: hint kind (absent, valid, expired, iat in the future, wrong key, foreign issuer, not a JWT, payload swapped, expired+wrong key; really signed ES256; 1/4 signed for another issuer of the same provider) x azp (client, other client, none, unknown) x client_id (absent, same, contradicting, unknown) x post_logout_redirect_uri (absent, registered, registered for the other client, glob instance, mutated: suffix/prefix/userinfo/host case/foreign/unparseable/scheme) x state (absent, plain, special characters, random bytes) x two random registrations (0-3 URIs, optional path.Match globs incl. malformed) x default logout URI x storage fault; plus a directed grid and directed two-host sequences. non-trivial = some request not rejected because of its hint; distinct = distinct Coq input terms",
 	})
 	if err != nil {
 		fmt.Fprintln(os.Stderr, err)
